@@ -9,6 +9,7 @@ import (
 	"runtime"
 	"strings"
 	"sync"
+	"sync/atomic"
 	"time"
 
 	"github.com/q191201771/lal/pkg/base"
@@ -294,7 +295,9 @@ func c16Finalise(c *fw.Ctx, i int) {
 		pub.RC.SetChunkSize(60000)
 		hook := hooks.Latest(name)
 		sent := 0
-		waitProcessed := func() bool { return srv.WaitFor(10*time.Second, func() bool { return hook != nil && hook.Count() >= sent }) }
+		waitProcessed := func() bool {
+			return srv.WaitFor(10*time.Second, func() bool { return hook != nil && hook.Count() >= sent })
+		}
 		var joiners []*c16Cons
 		joinAt := nHdr + 1 + r.Intn(8)
 		statChecked := false
@@ -1052,6 +1055,111 @@ func c16PullDispose(c *fw.Ctx, i int) {
 	}
 }
 
+// c16RtspPullEnd: the stream's input is a relay pull over RTSP (lal pulls from its own RTSP server,
+// interleaved TCP or UDP) and that input ends - by stop_relay_pull, by kick, or because the origin
+// stream ends. It is an input like any other: hook told to stop once, playlist finalised, group
+// removed, and the name is free for a publisher afterwards.
+func c16RtspPullEnd(c *fw.Ctx, i int) {
+	root := filepath.Join(c.Scratch, fmt.Sprintf("c16rp-%d", i))
+	os.MkdirAll(root, 0755)
+	defer os.RemoveAll(root)
+	s, err := srv.Start(srv.Conf{RtmpGop: 1, Flv: true, Rtsp: true, Hls: true, HlsFragMs: 500, HlsFragNum: 4000, HlsDelThr: 4000, RecFlv: true, Api: true}, root)
+	if err != nil {
+		c.Inconclusive("server start: %v", err)
+		return
+	}
+	defer s.Stop()
+	hooks := s.InstallHook(false)
+	way := []string{"stop", "kick", "origin-ends"}[(i/2)%3]
+	mode := i % 2
+	src, dst := fmt.Sprintf("rpsrc%d", i), fmt.Sprintf("rpdst%d", i)
+	desc := fmt.Sprintf("rtsp relay pull (rtsp_mode=%d) as the input of %s, ended by %s", mode, dst, way)
+	c.Describe("%s", desc)
+	c.Cell("rtsp-pull-end/%s/mode=%d", way, mode)
+	pub, err := ref.StartRtmpPublisher(s.RtmpAddr(), "live", src, 3*time.Second)
+	if err != nil {
+		c.Inconclusive("origin publisher: %v", err)
+		return
+	}
+	defer pub.Close()
+	msgs := gen.Build(c.SubRng("src"), 1, gen.Shape{Name: "rp", Video: true, Audio: true, Meta: true, Gops: 400, GopLen: 5, AudioPerVid: 1, Sizes: []int{200, 600}})
+	var stopPub int32
+	pubDone := make(chan struct{})
+	go func() {
+		defer close(pubDone)
+		t0 := time.Now()
+		for _, m := range msgs {
+			if atomic.LoadInt32(&stopPub) != 0 {
+				return
+			}
+			if pub.RC.Send(ref.RtmpMsg{Csid: csidFor(m.Type), TypeID: m.Type, StreamID: pub.Msid, Ts: m.Ts, Payload: m.Payload}, 0) != nil {
+				return
+			}
+			if d := time.Duration(m.Ts)*time.Millisecond - time.Since(t0); d > 0 {
+				time.Sleep(d) // real-time pacing
+			}
+		}
+	}()
+	defer func() { atomic.StoreInt32(&stopPub, 1); <-pubDone }()
+	time.Sleep(400 * time.Millisecond)
+	from := s.Notify.Len()
+	b, _ := json.Marshal(map[string]interface{}{"url": "rtsp://" + s.RtspAddr() + "/live/" + src, "stream_name": dst, "pull_retry_num": 0, "auto_stop_pull_after_no_out_ms": -1, "pull_timeout_ms": 4000, "rtsp_mode": mode})
+	srv.HttpPostJson(s.ApiAddr(), "/api/ctrl/start_relay_pull", string(b), 3*time.Second)
+	ev, ok := s.Notify.Wait(5*time.Second, from, func(ev srv.Event) bool { return ev.Kind == "pull_start" })
+	if !ok {
+		c.Inconclusive("the rtsp relay pull did not attach | %s", desc)
+		return
+	}
+	time.Sleep(1500 * time.Millisecond)
+	switch way {
+	case "stop":
+		srv.HttpGet(s.ApiAddr(), "/api/ctrl/stop_relay_pull?stream_name="+dst, 3*time.Second)
+	case "kick":
+		kb, _ := json.Marshal(map[string]string{"stream_name": dst, "session_id": ev.SessionId})
+		srv.HttpPostJson(s.ApiAddr(), "/api/ctrl/kick_session", string(kb), 3*time.Second)
+	default:
+		atomic.StoreInt32(&stopPub, 1)
+		<-pubDone
+		pub.Close()
+	}
+	c.Eval(1)
+	if _, ok := s.Notify.Wait(6*time.Second, from, func(e srv.Event) bool { return e.Kind == "pull_stop" && e.SessionId == ev.SessionId }); !ok {
+		c.Violate("rtsp-pull/no-pull-stop/"+way, "no relay_pull_stop notification within 6 s after the rtsp pull input ended | "+desc, nil)
+		return
+	}
+	hk := hooks.Latest(dst)
+	if hk == nil {
+		c.Inconclusive("no stream hook session for the pulled stream | %s", desc)
+		return
+	}
+	if !srv.WaitFor(3*time.Second, func() bool { return hk.Stops() >= 1 }) || hk.Stops() != 1 {
+		c.Violate("hook-stop-count/rtsp-pull-"+way, fmt.Sprintf("stream hook OnStop called %d times after the rtsp pull input ended, expected exactly 1 | %s", hk.Stops(), desc), nil)
+		return
+	}
+	pl, err := os.ReadFile(filepath.Join(s.HlsDir, dst, "playlist.m3u8"))
+	if err == nil && !bytes.Contains(pl, []byte("#EXT-X-ENDLIST")) {
+		c.Violate("hls/endlist-count/rtsp-pull-"+way, "the live playlist of the pulled stream has no ENDLIST after its input ended | "+desc, nil)
+		return
+	}
+	gone := srv.WaitFor(8*time.Second, func() bool {
+		_, _, body, err := srv.HttpGet(s.ApiAddr(), "/api/stat/all_group", 2*time.Second)
+		return err == nil && !bytes.Contains(body, []byte(`"stream_name":"`+dst+`"`))
+	})
+	if !gone {
+		c.Violate("group-not-removed/rtsp-pull-"+way, "the pulled stream is still listed 8 s after its input ended and nobody is attached | "+desc, nil)
+		return
+	}
+	from2 := s.Notify.Len()
+	p2, err := ref.StartRtmpPublisher(s.RtmpAddr(), "live", dst, 3*time.Second)
+	if err == nil {
+		defer p2.Close()
+		if _, ok := s.Notify.WaitSessionFrom(3*time.Second, from2, "pub_start", srv.Key(p2.RC.Conn)); !ok {
+			c.Violate("successor-refused/rtsp-pull-"+way, "a publisher of the name was not accepted after the rtsp pull input had ended | "+desc, nil)
+		}
+	}
+	c.Count("rtsp_pull_ends_judged", 1)
+}
+
 func c16RemoveMatching(dir, prefix string) {
 	es, _ := os.ReadDir(dir)
 	for _, e := range es {
@@ -1475,22 +1583,25 @@ func init() {
 		ID: "C16",
 		NumCases: func(tier string, seed int64) int {
 			if tier == "thorough" {
-				return 640
+				return 660
 			}
-			return 48
+			return 52
 		},
 		Setup:       c16Setup,
 		CaseTimeout: func(string) time.Duration { return 4 * time.Minute },
-		Rule: "whole-server runs with HLS (disk), FLV and TS recorders, relay push to a stub target, the stream hook and RTMP/FLV/TS consumers. Finalise scenarios (3 of 5 cases with an RTMP publisher; 1 of 5 with an RTSP publisher over interleaved TCP or UDP ended by close / kick / silence / TEARDOWN, outputs checked structurally): 3–5 incarnations of one stream name with changing codec pairs (AVC/HEVC/enhanced HEVC/none × AAC/none); each incarnation is cut at a seeded instant (nothing sent, headers only, right after a key frame, after an audio frame with batched audio pending, mid-stream, complete) by close / API kick / going silent (check interval 2 s; in half of these after having trickled its last messages over 4.8 s, i.e. after being found alive by at least two checks) / server Dispose. Observed right after each end: stream-hook OnStop calls = 1 and OnMsg calls = messages published; push target connection closed; exactly one FLV and one TS recording, FLV parses to EOF and equals the published audio/video messages, TS passes the C06 frame oracle to the last video and audio frame (flush); live and record playlists parse, one ENDLIST, every segment file listed and present, segments pass the frame oracle to the last frame; idle publisher gets pub_stop ≤ 2·interval+3 s+2 s and its socket closes; joiners of an incarnation see only its tags; players that join while the name has no input see only the next incarnation's tags and do receive its frames; long-lived consumers never see an older incarnation after a newer one, and the long-lived HTTP-TS consumer sees each incarnation's frames under a PMT that declares that incarnation's codecs; stat codec fields equal the current input's; the group leaves /api/stat/all_group ≤ 8 s after the last session. Re-publish scenarios (1 of 10): cleanup_mode 1/2 with a 1.5 s delayed directory cleanup, a second publisher of the name arriving at once and staying live across the first one's cleanup timer — live playlist and listed segments must be on disk while it is live and finalised when it ends, directory removed after the last end. Late-push scenarios (4 extra cases, thorough 20): the push target withholds its answer to `publish` until the publisher has left by close or kick (and, alternately, answers in time) — its connection must be closed within 4 s either way. Pull-dispose scenarios (4 extra cases, thorough 20): the input is a relay pull (attached, or its attempt held in flight by the origin) and the server is shut down — the origin connection must be closed within 4 s. Resource scenarios (1 of 5): 3 warm-up cycles, baseline goroutines and /proc/self/fd with no session left, 6 (thorough 12) cycles with RTMP/FLV/TS/RTSP-TCP/RTSP-UDP consumers, abandoned RTSP DESCRIBE/SETUP, aborted RTMP handshakes, HLS and API requests, ends by close/kick/consumers-first; growth ≥ 1 per 2 cycles is a leak. cell = end way × end instant × codec pair.",
+		Rule:        "whole-server runs with HLS (disk), FLV and TS recorders, relay push to a stub target, the stream hook and RTMP/FLV/TS consumers. Finalise scenarios (3 of 5 cases with an RTMP publisher; 1 of 5 with an RTSP publisher over interleaved TCP or UDP ended by close / kick / silence / TEARDOWN, outputs checked structurally): 3–5 incarnations of one stream name with changing codec pairs (AVC/HEVC/enhanced HEVC/none × AAC/none); each incarnation is cut at a seeded instant (nothing sent, headers only, right after a key frame, after an audio frame with batched audio pending, mid-stream, complete) by close / API kick / going silent (check interval 2 s; in half of these after having trickled its last messages over 4.8 s, i.e. after being found alive by at least two checks) / server Dispose. Observed right after each end: stream-hook OnStop calls = 1 and OnMsg calls = messages published; push target connection closed; exactly one FLV and one TS recording, FLV parses to EOF and equals the published audio/video messages, TS passes the C06 frame oracle to the last video and audio frame (flush); live and record playlists parse, one ENDLIST, every segment file listed and present, segments pass the frame oracle to the last frame; idle publisher gets pub_stop ≤ 2·interval+3 s+2 s and its socket closes; joiners of an incarnation see only its tags; players that join while the name has no input see only the next incarnation's tags and do receive its frames; long-lived consumers never see an older incarnation after a newer one, and the long-lived HTTP-TS consumer sees each incarnation's frames under a PMT that declares that incarnation's codecs; stat codec fields equal the current input's; the group leaves /api/stat/all_group ≤ 8 s after the last session. Re-publish scenarios (1 of 10): cleanup_mode 1/2 with a 1.5 s delayed directory cleanup, a second publisher of the name arriving at once and staying live across the first one's cleanup timer — live playlist and listed segments must be on disk while it is live and finalised when it ends, directory removed after the last end. RTSP-pull scenarios (4 extra cases, thorough 20): lal relay-pulls a stream from its own RTSP server (TCP/UDP) into another name; the pull ends by stop_relay_pull / kick / end of the origin stream — relay_pull_stop ≤ 6 s, hook OnStop exactly once, ENDLIST in the pulled stream's playlist, group removed ≤ 8 s, a publisher of the name admitted. Late-push scenarios (4 extra cases, thorough 20): the push target withholds its answer to `publish` until the publisher has left by close or kick (and, alternately, answers in time) — its connection must be closed within 4 s either way. Pull-dispose scenarios (4 extra cases, thorough 20): the input is a relay pull (attached, or its attempt held in flight by the origin) and the server is shut down — the origin connection must be closed within 4 s. Resource scenarios (1 of 5): 3 warm-up cycles, baseline goroutines and /proc/self/fd with no session left, 6 (thorough 12) cycles with RTMP/FLV/TS/RTSP-TCP/RTSP-UDP consumers, abandoned RTSP DESCRIBE/SETUP, aborted RTMP handshakes, HLS and API requests, ends by close/kick/consumers-first; growth ≥ 1 per 2 cycles is a leak. cell = end way × end instant × codec pair.",
 		Assumptions: []string{"recording and HLS files of one incarnation are inspected and then removed by the harness before the next incarnation starts (lal names recordings by second, so back-to-back incarnations would otherwise share a file name)", "goroutine and descriptor counts include the harness's own; every harness connection is closed before counting and only growth proportional to the number of cycles is judged"},
-		MinCells: 10,
+		MinCells:    10,
 		Run: func(c *fw.Ctx, i int) {
 			if base := map[bool]int{true: 600, false: 40}[c.Tier == "thorough"]; i >= base {
 				// the two scenarios added later have case indices of their own
-				if (i-base)%2 == 0 {
+				switch (i - base) % 3 {
+				case 0:
 					c16LatePush(c, i)
-				} else {
+				case 1:
 					c16PullDispose(c, i)
+				default:
+					c16RtspPullEnd(c, i)
 				}
 				return
 			}
